@@ -169,8 +169,52 @@ def concrete_conflicts(g, text):
     return out
 
 
-def explained_by_ws_state(cc):
-    return bool(cc) and all(k in ('state', 'state-same-outcome') for k, d in cc)
+def multi_state_rules(g):
+    """rules (and built-in rules) that, by the grammar text alone, can be evaluated under two different
+    whitespace states: a rule without own modifiers reached from callers with different states"""
+    from .. import gram
+    rules = {r[0]: r for r in g['rules']}
+    st0 = (bool(g['cfg'].get('skipws', True)), g['cfg'].get('ws'))
+    states = {}
+    todo = [(g['rules'][0][0], st0)]
+    if 'Comment' in rules:
+        todo.append(('Comment', st0))
+    while todo:
+        name, st = todo.pop()
+        if name in rules:
+            params = rules[name][1]
+            st = (bool(params['skipws']) if 'skipws' in params else st[0], params['ws'] if 'ws' in params else st[1])
+        if st in states.setdefault(name, set()):
+            continue
+        states[name].add(st)
+        if name in rules:
+            for x in gram.subexprs(rules[name][2]):
+                if x[0] == 'ref':
+                    todo.append((x[1], st))
+                # eolterm is a per-repetition state: any rule below a repetition with eolterm has two states
+    multi = {n for n, s_ in states.items() if len(s_) > 1}
+    for name, params, body in g['rules']:
+        for x in gram.subexprs(body):
+            if x[0] in ('star', 'plus') and x[3] or (x[0] == 'asg' and x[5]):
+                multi |= {y[1] for y in gram.subexprs(x) if y[0] == 'ref'} | {name}
+    return multi, set(states)
+
+
+def explained_by_ws_state(cc, g=None):
+    """the recorded root cause: one expression evaluated at one position under two whitespace states —
+    only where the grammar itself lets a rule be evaluated under two states"""
+    if not (bool(cc) and all(k in ('state', 'state-same-outcome') for k, d in cc)):
+        return False
+    if g is None:
+        return True
+    multi, known = multi_state_rules(g)
+    if not multi:
+        return False
+    for k, d in cc:
+        nm = d.split(' at ')[0]
+        if nm in known and nm not in multi:
+            return False
+    return True
 
 
 def obligation(item):
@@ -211,7 +255,7 @@ def obligation(item):
             res['validated'] += 2
             if bad:
                 cc = concrete_conflicts(g, text)
-                only_state = explained_by_ws_state(cc)
+                only_state = explained_by_ws_state(cc, g)
                 if only_state and KNOWN_WS in known_ids:
                     res['known'].setdefault(KNOWN_WS, {'grammar': g['name'], 'text': text,
                                                        'detail': detail, 'pair': cc[0][1]})
@@ -241,7 +285,7 @@ def obligation(item):
             res['validated'] += 2
             if bad:
                 cc = concrete_conflicts(g, text)
-                only_state = explained_by_ws_state(cc)
+                only_state = explained_by_ws_state(cc, g)
                 if only_state and KNOWN_WS in known_ids:
                     res['known'].setdefault(KNOWN_WS, {'grammar': g['name'], 'text': text,
                                                        'detail': detail, 'pair': cc[0][1]})
